@@ -79,6 +79,18 @@ pub fn v2_header(src: &SocketAddr, dst: &SocketAddr, local: bool) -> Vec<u8> {
     h
 }
 
+/// A PROXY v2 header with `pad` bytes of NOOP TLV (type 0x04) behind the addresses (what proxies that attach TLVs - SSL
+/// details, unique ids, padding - produce; the length field covers them).
+pub fn v2_header_padded(src: &SocketAddr, dst: &SocketAddr, pad: u16) -> Vec<u8> {
+    let mut h = v2_header(src, dst, false);
+    let len = u16::from_be_bytes([h[14], h[15]]) + 3 + pad;
+    h[14..16].copy_from_slice(&len.to_be_bytes());
+    h.push(0x04);
+    h.extend_from_slice(&pad.to_be_bytes());
+    h.extend(std::iter::repeat_n(0u8, pad as usize));
+    h
+}
+
 fn generate(rng: &mut Rng) -> C15Sc {
     let proxy = match rng.below(5) {
         0 => None,
@@ -178,7 +190,11 @@ fn generate(rng: &mut Rng) -> C15Sc {
                 }
                 _ => {
                     // the announced transport is a datagram one: still a header that announces a source
-                    spec.preamble = Some(if rng.chance(1, 2) { v2_header_dgram(&src, &dst) } else { v2_header(&src, &dst, false) });
+                    spec.preamble = Some(match rng.below(4) {
+                        0 | 1 => v2_header_dgram(&src, &dst),
+                        2 => v2_header_padded(&src, &dst, *rng.pick(&[0u16, 100, 200, 228, 229, 300, 2000])),
+                        _ => v2_header(&src, &dst, false),
+                    });
                     valid = v2;
                     effective = src;
                     kind = if v2 { "v2" } else { "v2_disabled" };
